@@ -134,6 +134,8 @@ func extra() {
 	t4()
 	t5()
 	t6()
+	f13()
+	t7()
 }
 
 // F7: per clone function of workflow/utils/clone/clone.go, the fields that are always copied (keys of
